@@ -5,7 +5,8 @@
 //   ratwit                    (sym_leaf)  one exact witness per reachable leaf of every entry: small integer components
 //                                         x four pairs of limit stubs chosen so that each outcome of the guard
 //                                         `dot < 2*tmin || tmax < dot` is forced.  Prints WITCASE / WITSUM lines.
-//   tvwit                     (sym_leaf)  C++-side TV at double with leaf coverage: real code vs tree, bitwise, on every leaf reachable with the real limits
+//   tvwit            (sym_leaf, sym_c08)  C++-side TV at double AND float with leaf coverage: real code vs tree, bitwise, on every leaf reachable with
+//                                         the real limits (for sym_c08: both leaves of every branching normalize form, the zero vector included)
 //   rateval                   (sym_leaf)  stdin: "<Fn> <frac> ..." per line -> "RATVAL <line-no> <frac>,..." (tree at Frac, default stubs)
 //   ratargs <seed> <n>        (sym_c08)   for every entry that calls an externally extracted function (length() is opaque
 //                                         here): n random inputs and the exact ARGUMENTS of each call on them
@@ -118,57 +119,68 @@ inline int ratwit (std::vector<FnRecord*>& recs)
     return 0;
 }
 
-// C++-side TV with recorded leaf coverage (audit W5): for every leaf reachable at double with the REAL limits — small integer
-// components x three scales (2^-600: squares underflow; 1; 2^600: squares overflow) — the REAL code at double (entry.runD) and the
-// extracted tree at double must agree bit for bit, and the leaf reached is recorded.
+// C++-side TV with recorded leaf coverage (audit W5, r2 N3): for every leaf reachable with the REAL limits — small integer components
+// (the zero vector included) x three scales (squares underflow / ordinary / squares overflow: 2^-600, 1, 2^600 at double, 2^-70, 1, 2^70
+// at float) — the REAL instantiation (the entry's body run at T, registered with C08_REG) and the extracted tree evaluated at T must
+// agree bit for bit (symns::tvOne), and the leaf reached is recorded.  Calls to the opaque length() are evaluated with the real member.
+struct Bodies { void (*d) (Ctx<double>&); void (*f) (Ctx<float>&); };
+inline std::map<std::string, Bodies>& bodies () { static std::map<std::string, Bodies> m; return m; }
+#define C08_REG(ident, leanname) static int c08reg_##ident = (c08modes::bodies ()[leanname] = c08modes::Bodies{&X_##ident::run<double>, &X_##ident::run<float>}, 0);
+
+template <class T> inline long tvwitOne (FnRecord* r, void (*body) (Ctx<T>&), const char* ty, const T (&scales)[3])
+{
+    size_t nin = arity (*r);
+    long   total = 1;
+    for (size_t i = 0; i < nin; ++i) total *= 9;
+    std::vector<char> hit (r->paths.size (), 0);
+    long nhit = 0, evals = 0, mism = 0;
+    const long step = total > 20000 ? total / 20000 + 1 : 1; // (two-vector entries such as dot: a sample; the zero input is always included)
+    for (int s = 0; s < 3; ++s)
+        for (long c0 = 0; c0 < total + step; c0 += step)
+        {
+            long c = c0 >= total ? (total - 1) / 2 : c0;     // last round: the all-zero input
+            std::vector<T> in;
+            long q = c;
+            for (size_t i = 0; i < nin; ++i) { in.push_back ((T) ((long) (q % 9) - 4) * scales[s]); q /= 9; }
+            Evaluator<T> ev;
+            setEnv (*r, ev, in);
+            long leaf = walk (*r, ev);
+            if (leaf < 0) { ++mism; printf ("TVWITFAIL %s %s no-path\n", r->name.c_str (), ty); continue; }
+            bool first = !hit[(size_t) leaf];
+            if (first) { hit[(size_t) leaf] = 1; ++nhit; }
+            if (!first && (c % 7) != 0) continue; // every leaf once + a sample of the repeats
+            std::string detail;
+            ++evals;
+            if (!tvOne<T> (*r, body, in, detail))
+            {
+                ++mism;
+                if (mism <= 5) { printf ("TVWITFAIL %s %s leaf=%ld in=", r->name.c_str (), ty, leaf); for (T x : in) printf ("%a ", (double) x); printf (":: %s\n", detail.c_str ()); }
+            }
+        }
+    long other = 0, otherHit = 0, constLeaves = 0, constHit = 0;
+    for (size_t i = 0; i < r->paths.size (); ++i)
+    {
+        const Leaf& l = r->paths[i].leaf;
+        bool isConst = !l.thrown && l.vals.size () == 1 && l.vals[0]->op == LIT;
+        if (isConst) { ++constLeaves; constHit += hit[i]; } else { ++other; otherHit += hit[i]; }
+    }
+    printf ("TVWIT %s %s leaves=%zu hit=%ld nonconst_leaves=%ld nonconst_hit=%ld const_leaves=%ld const_hit=%ld evaluations=%ld mismatches=%ld\n", r->name.c_str (), ty,
+            r->paths.size (), nhit, other, otherHit, constLeaves, constHit, evals, mism);
+    return mism;
+}
+
 inline int tvwit (std::vector<FnRecord*>& recs)
 {
-    const double scales[3] = {std::ldexp (1.0, -600), 1.0, std::ldexp (1.0, 600)};
+    const double sd[3] = {std::ldexp (1.0, -600), 1.0, std::ldexp (1.0, 600)};
+    const float  sf[3] = {std::ldexp (1.0f, -70), 1.0f, std::ldexp (1.0f, 70)};
     long bad = 0;
-    for (size_t ei = 0; ei < recs.size (); ++ei)
+    for (auto* r : recs)
     {
-        FnRecord* r = recs[ei];
-        if (r->status != "ok" || !entries ()[ei].runD) continue;
-        size_t nin = arity (*r);
-        long   total = 1;
-        for (size_t i = 0; i < nin; ++i) total *= 9;
-        std::vector<char> hit (r->paths.size (), 0);
-        long nhit = 0, evals = 0, mism = 0;
-        for (int s = 0; s < 3; ++s)
-            for (long c = 0; c < total; ++c)
-            {
-                std::vector<double> in;
-                long q = c;
-                for (size_t i = 0; i < nin; ++i) { in.push_back ((double) ((long) (q % 9) - 4) * scales[s]); q /= 9; }
-                Evaluator<double> ev;
-                setEnv (*r, ev, in);
-                long leaf = walk (*r, ev);
-                if (leaf < 0) { ++mism; printf ("TVWITFAIL %s no-path\n", r->name.c_str ()); continue; }
-                bool first = !hit[(size_t) leaf];
-                if (first) { hit[(size_t) leaf] = 1; ++nhit; }
-                if (!first && (c % 7) != 0) continue; // every leaf once + a sample of the repeats
-                std::vector<double> vals; std::vector<long> ints; std::string exc;
-                entries ()[ei].runD (in, vals, ints, exc);
-                ++evals;
-                const Leaf& l = r->paths[(size_t) leaf].leaf;
-                bool ok = exc.empty () && !l.thrown && vals.size () == l.vals.size ();
-                for (size_t k = 0; ok && k < vals.size (); ++k) ok = sameBits (vals[k], ev.ev (l.vals[k]));
-                if (!ok)
-                {
-                    ++mism;
-                    if (mism <= 5) { printf ("TVWITFAIL %s leaf=%ld in=", r->name.c_str (), leaf); for (double x : in) printf ("%a ", x); printf ("real=%a tree=%a\n", vals.empty () ? 0.0 : vals[0], l.vals.empty () ? 0.0 : ev.ev (l.vals[0])); }
-                }
-            }
-        long other = 0, otherHit = 0, constHit = 0;
-        for (size_t i = 0; i < r->paths.size (); ++i)
-        {
-            const Leaf& l = r->paths[i].leaf;
-            bool isConst = !l.thrown && l.vals.size () == 1 && l.vals[0]->op == LIT;
-            if (isConst) constHit += hit[i]; else { ++other; otherHit += hit[i]; }
-        }
-        printf ("TVWIT %s leaves=%zu hit=%ld nonconst_leaves=%ld nonconst_hit=%ld const_hit=%ld evaluations=%ld mismatches=%ld\n", r->name.c_str (), r->paths.size (), nhit, other,
-                otherHit, constHit, evals, mism);
-        bad += mism;
+        if (r->status != "ok") continue;
+        auto it = bodies ().find (r->name);
+        if (it == bodies ().end ()) { printf ("TVWITSKIP %s no-body-registered\n", r->name.c_str ()); continue; }
+        bad += tvwitOne<double> (r, it->second.d, "double", sd);
+        bad += tvwitOne<float> (r, it->second.f, "float", sf);
     }
     return bad ? 1 : 0;
 }
